@@ -15,7 +15,7 @@ def run(ctx):
     nsqdmc.model_check(ctx)
     import pairs
     # binding A': every interleaving (TLC, NsqdCore) of two operations' critical sections forced on the real daemon
-    pairs.run_pairs(ctx, "C13", pairs=[p for p in pairs.all_pairs() if "EMPTY" in p or "SCAN" in p], sample=None if not ctx.quick else 160)
+    pairs.run_pairs(ctx, "C13", pairs=[p for p in pairs.all_pairs() if "EMPTY" in p or "SCAN" in p] + pairs.TRIPLES, sample=None if not ctx.quick else 230)
     n = 16 if ctx.quick else 120
     corelib.run_modes(ctx, "C13", [("core", n), ("contend", n // 2)])
     ctx.cov["distinct_nontrivial"] = len(ctx.notes.get("event_kinds", {}))
